@@ -47,6 +47,11 @@ HASH_HEAVY = [
     ("From", "#[from(u8, u16)] struct S(u32);"), ("From", "#[from(u8, u16)] struct S(u64);"),
     ("AsRef", "#[as_ref(str)] struct S(String);"), ("AsRef", "#[as_ref(str)] struct S(Box<str>);"),
     ("TryInto", "#[try_into(ref)] enum E { A(u8), B(u16) }"), ("TryInto", "#[try_into(ref)] enum E { A(u8), B(u8) }"),
+    # the same type text is a type parameter of one item and a concrete type of the other (a memo keyed by the type's tokens
+    # would carry "mentions a parameter" from one to the other: seed C19-k)
+    ("Display", "struct S<V>(Id, V);"), ("Display", "struct S<Id>(Id);"), ("Debug", "struct S<V> { a: Id, b: V }"), ("Debug", "struct S<Id> { a: Id }"),
+    ("Display", '#[display("{a} {b}")] struct S<T> { a: Vec<U>, b: T }'), ("Display", '#[display("{a} {b}")] struct S<U> { a: Vec<U>, b: T }'),
+    ("LowerHex", "enum E<X> { A(X), B(Y) }"), ("LowerHex", "enum E<Y> { A(X), B(Y) }"),
     # type lists spread over several attributes (merged by the shared attribute helpers)
     ("From", "#[from(u8)] #[from(u16, u32)] #[from(u64)] #[from(i8, i16)] #[from(i32)] struct S(i128);"),
     ("From", "enum E { #[from(u8)] #[from(u16)] #[from(u32)] #[from(u64)] A(u128), #[from(i8, i16)] #[from(i32, i64)] B(i128) }"),
